@@ -508,6 +508,18 @@ func runC18(r *evid.Run) {
 		cases = append(cases, c18Case{Tree: lib, Requests: each}, c18Case{Tree: lib, Requests: []string{"lib/*.so"}}, c18Case{Tree: lib, Requests: []string{"lib/*.so", "lib/l44.so.1"}},
 			c18Case{Tree: lib, Requests: each[40:], Transfer: true}, c18Case{Tree: chain, Requests: []string{"c00"}}, c18Case{Tree: chain, Requests: []string{"c*"}})
 	}
+	// names that begin with a dot, as links and as plain entries, below a wildcard
+	{
+		T := fsmodel.T0
+		dot := trees[0].Clone()
+		dot = append(dot, fsmodel.Node{Path: "d/.h", Kind: fsmodel.Symlink, Perm: 0777, Mtime: T, Link: "../m"}, fsmodel.Node{Path: "d/.k", Kind: fsmodel.Symlink, Perm: 0777, Mtime: T, Link: "s"},
+			fsmodel.Node{Path: ".top", Kind: fsmodel.Symlink, Perm: 0777, Mtime: T, Link: "a/b"}, fsmodel.Node{Path: "d/.plain", Kind: fsmodel.File, Perm: 0644, Mtime: T, Data: []byte("p")})
+		dot.Sort()
+		for _, l := range [][]string{{"d/*"}, {"d/.*"}, {"*/.h"}, {"*"}, {".*"}, {"d/.h"}, {"d/*", "m"}, {"d/.?"}} {
+			cases = append(cases, c18Case{Tree: dot, Requests: l, Transfer: len(l) == 1})
+		}
+		trees = append(trees, dot)
+	}
 	r.Set("cases", len(cases))
 	r.Set("trees", len(trees))
 	// the same request lists against the on-disk FS of the same tree (lazy stats, kernel errors such as ENOTDIR for
